@@ -24,7 +24,10 @@ Imports == {"asis", "local", "decoy"}   \* decoy: an unrelated function imports 
 \* that starts on a continuation line of its statement)
 \* "fstring-field": the call of the touched statement becomes the replacement field of an f-string (a rewrite that starts
 \* with a brace, or brings the quote of the string along, changes the string or breaks it)
-Args    == {"asis", "kwspread-last", "kwspread-mid", "extra-kw", "dict-spread", "same-line-pair", "multiline", "list-elements", "fstring-field"}
+\* "inline-suite": the touched one-line statement becomes the one-line body of `if True: <stmt>` (a suite that is not an
+\* indented block: statements cannot simply be added before or after it)
+Args    == {"asis", "kwspread-last", "kwspread-mid", "extra-kw", "dict-spread", "same-line-pair", "multiline", "list-elements", "fstring-field",
+            "inline-suite"}
 
 VARIABLES v, st
 
